@@ -1,5 +1,7 @@
 //! Build progress reporting for a "fancy" console, with progress bar etc.
 
+#[cfg(n2_verif_shuttle)]
+use crate::verif::shim_tty as std;
 use crate::progress::{build_message, Progress};
 use crate::{
     graph::Build, graph::BuildId, process::Termination, task::TaskResult, terminal,
